@@ -186,6 +186,10 @@ type DotGit struct {
 	incomingOnce    sync.Once
 	incomingDirName string
 
+	// listMu guards the ExclusiveAccess caches below. Once published
+	// the slices and maps are never modified, only replaced, so a
+	// snapshot taken under the lock can be read without it.
+	listMu     sync.Mutex
 	objectList []plumbing.Hash // sorted
 	objectMap  map[plumbing.Hash]struct{}
 	packList   []plumbing.Hash
@@ -258,7 +262,9 @@ func (d *DotGit) Close() error {
 		}
 	}
 
+	d.listMu.Lock()
 	d.packMap = nil
+	d.listMu.Unlock()
 
 	return errors.Join(phErrs...)
 }
@@ -434,12 +440,12 @@ func (d *DotGit) ObjectPacks() ([]plumbing.Hash, error) {
 		return d.objectPacks()
 	}
 
-	err := d.genPackList()
+	packs, _, err := d.genPackList()
 	if err != nil {
 		return nil, err
 	}
 
-	return d.packList, nil
+	return slices.Clone(packs), nil
 }
 
 func (d *DotGit) objectPacks() ([]plumbing.Hash, error) {
@@ -818,25 +824,27 @@ func (d *DotGit) ObjectsWithPrefix(prefix []byte) ([]plumbing.Hash, error) {
 	}
 
 	if d.options.ExclusiveAccess {
-		err := d.genObjectList()
+		objectList, _, err := d.genObjectList()
 		if err != nil {
 			return nil, err
 		}
 
-		// Rely on d.objectList being sorted.
+		// Rely on objectList being sorted.
 		// Figure out the half-open interval defined by the prefix.
-		first := sort.Search(len(d.objectList), func(i int) bool {
+		first := sort.Search(len(objectList), func(i int) bool {
 			// Same as plumbing.HashSlice.Less.
-			return bytes.Compare(d.objectList[i].Bytes(), prefix) >= 0
+			return bytes.Compare(objectList[i].Bytes(), prefix) >= 0
 		})
-		lim := len(d.objectList)
+		lim := len(objectList)
 		if limPrefix, overflow := incBytes(prefix); !overflow {
-			lim = sort.Search(len(d.objectList), func(i int) bool {
+			lim = sort.Search(len(objectList), func(i int) bool {
 				// Same as plumbing.HashSlice.Less.
-				return bytes.Compare(d.objectList[i].Bytes(), limPrefix) >= 0
+				return bytes.Compare(objectList[i].Bytes(), limPrefix) >= 0
 			})
 		}
-		return d.objectList[first:lim], nil
+		// The caller owns the result (it appends to and sorts it):
+		// never hand out the cached slice itself.
+		return slices.Clone(objectList[first:lim]), nil
 	}
 
 	// This is the slow path.
@@ -859,12 +867,12 @@ func (d *DotGit) ObjectsWithPrefix(prefix []byte) ([]plumbing.Hash, error) {
 // .git/objects/ directory.
 func (d *DotGit) Objects() ([]plumbing.Hash, error) {
 	if d.options.ExclusiveAccess {
-		err := d.genObjectList()
+		objectList, _, err := d.genObjectList()
 		if err != nil {
 			return nil, err
 		}
 
-		return d.objectList, nil
+		return slices.Clone(objectList), nil
 	}
 
 	var objects []plumbing.Hash
@@ -885,12 +893,12 @@ func (d *DotGit) ForEachObjectHash(fun func(plumbing.Hash) error) error {
 		return d.forEachObjectHash(fun)
 	}
 
-	err := d.genObjectList()
+	objectList, _, err := d.genObjectList()
 	if err != nil {
 		return err
 	}
 
-	for _, h := range d.objectList {
+	for _, h := range objectList {
 		err := fun(h)
 		if err != nil {
 			return err
@@ -936,27 +944,36 @@ func (d *DotGit) forEachObjectHash(fun func(plumbing.Hash) error) error {
 }
 
 func (d *DotGit) cleanObjectList() {
+	d.listMu.Lock()
 	d.objectMap = nil
 	d.objectList = nil
+	d.listMu.Unlock()
 }
 
-func (d *DotGit) genObjectList() error {
+// genObjectList builds the loose-object caches if needed and returns
+// them. The returned slice and map must not be modified.
+func (d *DotGit) genObjectList() ([]plumbing.Hash, map[plumbing.Hash]struct{}, error) {
+	d.listMu.Lock()
+	defer d.listMu.Unlock()
+
 	if d.objectMap != nil {
-		return nil
+		return d.objectList, d.objectMap, nil
 	}
 
-	d.objectMap = make(map[plumbing.Hash]struct{})
+	var objectList []plumbing.Hash
+	objectMap := make(map[plumbing.Hash]struct{})
 	populate := func(h plumbing.Hash) error {
-		d.objectList = append(d.objectList, h)
-		d.objectMap[h] = struct{}{}
+		objectList = append(objectList, h)
+		objectMap[h] = struct{}{}
 
 		return nil
 	}
 	if err := d.forEachObjectHash(populate); err != nil {
-		return err
+		return nil, nil, err
 	}
-	plumbing.HashesSort(d.objectList)
-	return nil
+	plumbing.HashesSort(objectList)
+	d.objectList, d.objectMap = objectList, objectMap
+	return objectList, objectMap, nil
 }
 
 func (d *DotGit) hasObject(h plumbing.Hash) error {
@@ -964,12 +981,12 @@ func (d *DotGit) hasObject(h plumbing.Hash) error {
 		return nil
 	}
 
-	err := d.genObjectList()
+	_, objectMap, err := d.genObjectList()
 	if err != nil {
 		return err
 	}
 
-	_, ok := d.objectMap[h]
+	_, ok := objectMap[h]
 	if !ok {
 		return plumbing.ErrObjectNotFound
 	}
@@ -988,8 +1005,10 @@ func (d *DotGit) hasObject(h plumbing.Hash) error {
 // The errors are joined and returned so callers can surface them
 // rather than silently masking I/O failures during cleanup.
 func (d *DotGit) cleanPackList() error {
+	d.listMu.Lock()
 	d.packMap = nil
 	d.packList = nil
+	d.listMu.Unlock()
 
 	d.packHandlesMu.Lock()
 	handles := d.packHandles
@@ -1005,25 +1024,28 @@ func (d *DotGit) cleanPackList() error {
 	return errors.Join(errs...)
 }
 
-func (d *DotGit) genPackList() error {
+// genPackList builds the pack caches if needed and returns them. The
+// returned slice and map must not be modified.
+func (d *DotGit) genPackList() ([]plumbing.Hash, map[plumbing.Hash]struct{}, error) {
+	d.listMu.Lock()
+	defer d.listMu.Unlock()
+
 	if d.packMap != nil {
-		return nil
+		return d.packList, d.packMap, nil
 	}
 
 	op, err := d.objectPacks()
 	if err != nil {
-		return err
+		return nil, nil, err
 	}
 
-	d.packMap = make(map[plumbing.Hash]struct{}, len(op))
-	d.packList = nil
-
+	packMap := make(map[plumbing.Hash]struct{}, len(op))
 	for _, h := range op {
-		d.packList = append(d.packList, h)
-		d.packMap[h] = struct{}{}
+		packMap[h] = struct{}{}
 	}
+	d.packList, d.packMap = op, packMap
 
-	return nil
+	return op, packMap, nil
 }
 
 func (d *DotGit) hasPack(h plumbing.Hash) error {
@@ -1031,12 +1053,12 @@ func (d *DotGit) hasPack(h plumbing.Hash) error {
 		return nil
 	}
 
-	err := d.genPackList()
+	_, packMap, err := d.genPackList()
 	if err != nil {
 		return err
 	}
 
-	_, ok := d.packMap[h]
+	_, ok := packMap[h]
 	if !ok {
 		return ErrPackfileNotFound
 	}
